@@ -1410,6 +1410,19 @@ class Interp:
             h = getattr(self, 'poll_hook', None)
             if h:
                 return h(self, co, ptr)
+            if isinstance(co, Opaque) and co.ty == 'IoFuture' and co.tag == 'chan_send':
+                # an awaited mpsc send: completes when the channel is closed (Err) or has room (the item is accepted); on a full
+                # channel it stays Pending -- modelled as accepted after the wait, the wait itself is recorded by the model
+                # (env['awaited_channels']) and is what obligations about "no waiting on this channel" look at
+                from .models.io import chan_of
+                from .models.util import ok as _ok, err as _err, unit as _unit
+                p, item = co.data
+                ch = chan_of(self, p)
+                if self.branch(ch.closed.v == 1 if not ch.closed.concrete else bool(ch.closed.v), 'chan_closed'):
+                    return EnumV(BV(64, 0), {'Ready': [_err(self, Opaque('SendError', 'closed'))]}, 'Poll')
+                self.env.setdefault('blocked_sends', []).append(ch.name)
+                ch.sent.append(item)
+                return EnumV(BV(64, 0), {'Ready': [_ok(self, _unit())]}, 'Poll')
             raise Inconclusive("poll of %r" % (co,))
         pin = Agg([ptr], 'Pin')
         ctxv = Opaque('Context', 'cx')
